@@ -122,15 +122,16 @@ func srcBase(mt commonpb.MsgType, ts uint64) *commonpb.MsgBase {
 }
 
 type opCase struct {
-	kind   string
-	db     string
-	coll   string
-	colls  []string // Flush
-	parts  []string // Load/ReleasePartitions
-	ts     uint64
-	msg    msgstream.TsMsg
-	src    proto.Message // deep copy of the source request, taken before the writer saw it
-	method string        // expected downstream method
+	preStamped bool
+	kind       string
+	db         string
+	coll       string
+	colls      []string // Flush
+	parts      []string // Load/ReleasePartitions
+	ts         uint64
+	msg        msgstream.TsMsg
+	src        proto.Message // deep copy of the source request, taken before the writer saw it
+	method     string        // expected downstream method
 }
 
 // genOp builds one op message of the given kind addressed to (db, coll).
@@ -212,6 +213,18 @@ func genOp(t *rapid.T, kind, db, coll string, ts uint64) *opCase {
 		c.msg, c.src = &msgstream.OperatePrivilegeMsg{BaseMsg: bm, OperatePrivilegeRequest: r}, proto.Clone(r)
 	default:
 		panic("unknown kind " + kind)
+	}
+	// a source request may already carry a replication stamp (chained replication, or an empty one); the stamp sent
+	// downstream must still be the one of this hop
+	if b, ok := c.msg.(interface{ GetBase() *commonpb.MsgBase }); ok && b.GetBase() != nil {
+		switch rapid.IntRange(0, 7).Draw(t, "sourceReplicateInfo") {
+		case 5:
+			b.GetBase().ReplicateInfo = &commonpb.ReplicateInfo{}
+			c.preStamped = true
+		case 6:
+			b.GetBase().ReplicateInfo = &commonpb.ReplicateInfo{IsReplicate: true, ReplicateID: "upstream-rid", MsgTimestamp: 7}
+			c.preStamped = true
+		}
 	}
 	return c
 }
